@@ -9,7 +9,8 @@
 //!   flag `i` : implementation-vs-oracle only.
 //!   expected-records : `-` no expectation (malformed stream: only "Ok or Err, never panic/hang"),
 //!              `0` the empty set, else `rec|rec|…` with rec = `owner/type/class/ttl/rdata`,
-//!              names lower-cased (DNS names are case-insensitive).
+//!              names lower-cased (DNS names are case-insensitive);
+//!              `!` the text states an invalid name (> 255 octets, label > 63): must be an error.
 //!
 //! Implementation output: `ok <origin> <rrset>…` (rrsets sorted), `err`, `panic …`, `hang`.
 use std::collections::BTreeMap;
@@ -328,7 +329,14 @@ pub fn exec(line: &str, rec: &mut Recorder) {
         Ran::Hang => rec.fail(idx, "hang: no result within 30 s", ""),
         _ => {}
     }
-    if expected != "-" && !bad {
+    if expected == "!" && !bad {
+        rec.stat("expect.error");
+        if norm.is_some() {
+            rec.fail(idx, "a zone file stating an invalid name (more than 255 octets, or a label of more than 63) was accepted", "");
+        } else {
+            rec.stat("expect.met");
+        }
+    } else if expected != "-" && !bad {
         rec.stat("expect.records");
         let mut want: Vec<String> = if expected == "0" { vec![] } else { expected.split('|').map(String::from).collect() };
         want.sort();
@@ -657,6 +665,9 @@ struct Printer<'a> {
     tags: Vec<&'static str>,
     /// a name was printed with a `\DDD` escape (the model does not cover what IDNA does with it)
     name_ddd: bool,
+    /// how names under the origin are written: 0 = random, 1 = always relative (never `@`),
+    /// 2 = always absolute
+    name_policy: u8,
     /// avoid the layout hickory is known to mishandle (`\DDD` with DDD >= 10; and no names with
     /// arbitrary octets): every oracle failure in such a file is a new violation
     clean: bool,
@@ -731,11 +742,11 @@ impl<'a> Printer<'a> {
     fn name(&mut self, n: &GName, owner: bool) -> String {
         let origin = self.origin.clone();
         let under = n.ends_with(&origin) && n.0.len() > origin.0.len();
-        if owner && n.0.len() == origin.0.len() && n.ends_with(&origin) && self.r.chance(1, 2) {
+        if self.name_policy == 0 && owner && n.0.len() == origin.0.len() && n.ends_with(&origin) && self.r.chance(1, 2) {
             self.tag("owner.at");
             return "@".into();
         }
-        if under && self.r.chance(1, 2) {
+        if under && self.name_policy != 2 && (self.name_policy == 1 || self.r.chance(1, 2)) {
             self.tag(if owner { "owner.relative" } else { "rdata-name.relative" });
             let k = n.0.len() - origin.0.len();
             let parts: Vec<String> = n.0[..k].iter().map(|l| self.label_text(l)).collect();
@@ -1046,6 +1057,7 @@ fn render(r: &mut Rng, origin: &GName, recs: &[GRec], clean: bool) -> (String, G
         last_owner: None,
         tags: vec![],
         name_ddd: false,
+        name_policy: 0,
         clean,
     };
     p.filler();
@@ -1077,6 +1089,231 @@ fn render(r: &mut Rng, origin: &GName, recs: &[GRec], clean: bool) -> (String, G
         p.filler();
     }
     (p.out, p.origin, p.tags, p.name_ddd)
+}
+
+/// a scripted file: directives, filler and records with a stated way of writing names
+enum Step {
+    Origin(GName),
+    Ttl(u32),
+    Filler,
+    /// record, name policy (0 random / 1 relative / 2 absolute)
+    Rec(GRec, u8),
+}
+
+fn render_plan(r: &mut Rng, origin: &GName, plan: &[Step]) -> (String, GName, Vec<&'static str>) {
+    let mut p = Printer {
+        r,
+        out: String::new(),
+        origin: origin.clone(),
+        default_ttl: None,
+        last_ttl: None,
+        last_class: None,
+        last_owner: None,
+        tags: vec![],
+        name_ddd: false,
+        name_policy: 0,
+        clean: true,
+    };
+    let nrec = plan.iter().filter(|s| matches!(s, Step::Rec(..))).count();
+    let mut k = 0;
+    for st in plan {
+        match st {
+            Step::Origin(o) => p.directive_origin(o),
+            Step::Ttl(t) => p.directive_ttl(*t),
+            Step::Filler => p.filler(),
+            Step::Rec(rec, pol) => {
+                k += 1;
+                p.name_policy = *pol;
+                p.record(rec, k == nrec);
+                p.name_policy = 0;
+            }
+        }
+    }
+    (p.out, p.origin, p.tags)
+}
+
+fn gen_alnum_label(r: &mut Rng, n: usize) -> Vec<u8> {
+    (0..n).map(|_| *r.pick(b"abcdefghijklmnopqrstuvwxyzABCXYZ0123456789")).collect()
+}
+
+/// a name under `base` whose wire form has exactly `total` octets (labels of 63 as far as they go)
+fn name_of_wire_len(r: &mut Rng, base: &GName, total: usize) -> GName {
+    let mut remaining = total - base.wire_len();
+    let mut lens = vec![];
+    while remaining > 64 {
+        lens.push(63);
+        remaining -= 64;
+    }
+    if remaining == 1 {
+        // no room for a label of length 0: shorten the previous one
+        let l = lens.pop().unwrap();
+        lens.push(l - 1);
+        remaining = 2;
+    }
+    lens.push(remaining - 1);
+    // put the short label anywhere
+    let i = r.below(lens.len() as u64) as usize;
+    let last = lens.len() - 1;
+    lens.swap(i, last);
+    let mut ls: Vec<Vec<u8>> = lens.into_iter().map(|n| gen_alnum_label(r, n)).collect();
+    for l in ls.iter_mut() {
+        if l.len() >= 4 && l[..2].eq_ignore_ascii_case(b"xn") {
+            l[0] = b'y';
+        }
+    }
+    ls.extend(base.0.iter().cloned());
+    GName(ls)
+}
+
+fn simple_origin(r: &mut Rng) -> GName {
+    let k = r.range(1, 3);
+    GName((0..k).map(|_| { let n = r.range(1, 9) as usize; gen_alnum_label(r, n) }).collect())
+}
+
+fn rec_a(r: &mut Rng, owner: &GName, ttl: u32) -> GRec {
+    GRec { owner: owner.clone(), rtype: "A", code: 1, class: 1, ttl, data: GData::A([r.byte(), r.byte(), r.byte(), r.byte()]) }
+}
+
+/// names at the limits: absolute forms of exactly 253..256 octets, labels of 63 / 64, written
+/// absolutely and origin-relative (loader origin or `$ORIGIN`), as owner and in every RDATA name
+/// position.  Returns (case line): 255 and less must load, 256 / a 64-octet label must be an error.
+fn limit_names_case(r: &mut Rng) -> String {
+    let loader = simple_origin(r);
+    let mut plan = vec![Step::Filler];
+    let base = if r.chance(1, 2) {
+        let o = if r.chance(1, 2) { gen_name_under(r, &loader, false) } else { simple_origin(r) };
+        plan.push(Step::Origin(o.clone()));
+        o
+    } else {
+        loader.clone()
+    };
+    let (big, valid) = match r.below(6) {
+        0 => (name_of_wire_len(r, &base, 253), true),
+        1 => (name_of_wire_len(r, &base, 254), true),
+        2 | 3 => (name_of_wire_len(r, &base, 255), true),
+        4 => (name_of_wire_len(r, &base, 256), false),
+        _ => {
+            // a single label of 63 (valid) or 64 (not)
+            let n = if r.chance(1, 2) { 63 } else { 64 };
+            let mut ls = vec![gen_alnum_label(r, n)];
+            ls.extend(base.0.iter().cloned());
+            (GName(ls), n == 63)
+        }
+    };
+    let policy = if r.chance(2, 3) { 1 } else { 2 };
+    let ttl = r.range(1, 99999) as u32;
+    let small = {
+        let mut ls = vec![gen_alnum_label(r, 3)];
+        ls.extend(base.0.iter().cloned());
+        GName(ls)
+    };
+    let other = {
+        let mut ls = vec![gen_alnum_label(r, 4)];
+        ls.extend(base.0.iter().cloned());
+        GName(ls)
+    };
+    let mk = |rtype: &'static str, code: u16, data: GData| GRec { owner: small.clone(), rtype, code, class: 1, ttl, data };
+    let pos = r.below(7);
+    rec_stat_hint(pos);
+    let rec = match pos {
+        0 => rec_a(r, &big, ttl),
+        1 => mk("NS", 2, GData::N(big.clone())),
+        2 => mk("CNAME", 5, GData::N(big.clone())),
+        3 => mk("MX", 15, GData::Mx(r.below(100) as u16, big.clone())),
+        4 => mk("SOA", 6, GData::Soa(big.clone(), other.clone(), 1, 2, 3, 4, 5)),
+        5 => mk("SOA", 6, GData::Soa(other.clone(), big.clone(), 1, 2, 3, 4, 5)),
+        _ => mk("SRV", 33, GData::Srv(1, 2, 3, big.clone())),
+    };
+    let mut recs = vec![];
+    if r.chance(1, 2) {
+        let x = rec_a(r, &other, ttl);
+        recs.push(x.clone());
+        plan.push(Step::Rec(x, 0));
+        plan.push(Step::Filler);
+    }
+    recs.push(rec.clone());
+    plan.push(Step::Rec(rec, policy));
+    let (text, final_origin, _tags) = render_plan(r, &loader, &plan);
+    if valid {
+        case_line("m", &loader, &text, Some((&final_origin, &recs)))
+    } else {
+        format!("zone m {} {} {} !", loader.tok(), hex(text.as_bytes()), final_origin.tok_lower())
+    }
+}
+
+fn rec_stat_hint(_pos: u64) {}
+
+/// the same relative owner text, and the same relative RDATA names, again after each `$ORIGIN`
+/// change — with comments, blank lines, inherited-owner lines and `$TTL` in between: every name
+/// denotes itself under the origin in force *where it is written*
+fn origin_switch_case(r: &mut Rng) -> String {
+    let loader = simple_origin(r);
+    let x: Vec<Vec<u8>> = (0..r.range(1, 2)).map(|_| { let n = r.range(1, 6) as usize; gen_alnum_label(r, n) }).collect();
+    let y: Vec<Vec<u8>> = vec![{ let n = r.range(1, 6) as usize; gen_alnum_label(r, n) }];
+    let z: Vec<Vec<u8>> = vec![{ let n = r.range(1, 6) as usize; gen_alnum_label(r, n) }];
+    let under = |rel: &Vec<Vec<u8>>, o: &GName| {
+        let mut ls = rel.clone();
+        ls.extend(o.0.iter().cloned());
+        GName(ls)
+    };
+    let mut origins = vec![loader.clone()];
+    for _ in 0..r.range(1, 2) {
+        for _ in 0..10 {
+            let o = match r.below(3) {
+                0 => gen_name_under(r, &loader, false),
+                1 if loader.0.len() > 1 => GName(loader.0[1..].to_vec()),
+                _ => simple_origin(r),
+            };
+            if !origins.iter().any(|p| p.tok_lower() == o.tok_lower()) && !o.0.is_empty() {
+                origins.push(o);
+                break;
+            }
+        }
+    }
+    let mut plan = vec![];
+    let mut recs: Vec<GRec> = vec![];
+    let ttl = r.range(1, 99999) as u32;
+    for (k, o) in origins.iter().enumerate() {
+        if k > 0 || r.chance(1, 4) {
+            plan.push(Step::Origin(o.clone()));
+        }
+        plan.push(Step::Filler);
+        if r.chance(1, 3) {
+            plan.push(Step::Ttl(ttl));
+        }
+        let owner = under(&x, o);
+        let target = under(&y, o);
+        let mut seg = vec![rec_a(r, &owner, ttl)];
+        for kind in 0..3 {
+            if r.chance(1, 2) {
+                let (rtype, code, data): (&'static str, u16, GData) = match kind {
+                    0 => ("NS", 2, GData::N(target.clone())),
+                    1 => ("MX", 15, GData::Mx(10, target.clone())),
+                    _ => ("TXT", 16, GData::Txt(vec![gen_alnum_label(r, 5)])),
+                };
+                seg.push(GRec { owner: owner.clone(), rtype, code, class: 1, ttl, data });
+            }
+        }
+        if r.chance(1, 2) {
+            // another owner whose RDATA repeats the relative name
+            let oz = under(&z, o);
+            let (rtype, code) = *r.pick(&[("CNAME", 5u16), ("NS", 2), ("PTR", 12)]);
+            seg.push(GRec { owner: oz, rtype, code, class: 1, ttl, data: GData::N(target.clone()) });
+        }
+        for (j, rec) in seg.into_iter().enumerate() {
+            // a set: the same record is not stated twice (the labels x and z can coincide)
+            if recs.iter().any(|x: &GRec| x.norm() == rec.norm()) {
+                continue;
+            }
+            if j > 0 && r.chance(1, 3) {
+                plan.push(Step::Filler);
+            }
+            recs.push(rec.clone());
+            plan.push(Step::Rec(rec, 1));
+        }
+    }
+    let (text, final_origin, _tags) = render_plan(r, &loader, &plan);
+    case_line("m", &loader, &text, Some((&final_origin, &recs)))
 }
 
 // ------------------------------------------------------------------------------------------------
@@ -1245,7 +1482,7 @@ fn adversarial() -> Vec<String> {
 }
 
 pub fn run(o: &Opts, rec: &mut Recorder) {
-    rec.rule = "zone texts: (a) random record sets of A/AAAA/NS/CNAME/PTR/ANAME/MX/SOA/SRV/TXT/HINFO/CAA printed by an independent RFC 1035 §5 printer with per-line random layout, (b) mutations of those, (c) token soup, repeated RRset edits and garbage; a case is non-trivial when the text loaded to >= 1 record or is a malformed-stream text of >= 10 characters; distinct by case line".into();
+    rec.rule = "zone texts: (a) random record sets of A/AAAA/NS/CNAME/PTR/ANAME/MX/SOA/SRV/TXT/HINFO/CAA printed by an independent RFC 1035 §5 printer with per-line random layout, (a') names at the length limits (253-256 octets, labels of 63/64) written absolutely and origin-relative in every name position, and the same relative names repeated across $ORIGIN changes, (b) mutations of those, (c) token soup, repeated RRset edits and garbage; a case is non-trivial when the text loaded to >= 1 record or is a malformed-stream text of >= 10 characters; distinct by case line".into();
     for l in o.pre_lines.clone() {
         exec(&l, rec);
     }
@@ -1269,7 +1506,15 @@ pub fn run(o: &Opts, rec: &mut Recorder) {
         let recs = gen_records(&mut r, &origin, wild, clean);
         let (text, final_origin, tags, name_ddd) = render(&mut r, &origin, &recs, clean);
         match i % 10 {
-            0..=5 => {
+            5 if (i / 10) % 2 == 0 => {
+                rec.stat("stream.limit-names");
+                exec(&limit_names_case(&mut r), rec);
+            }
+            5 => {
+                rec.stat("stream.origin-switch");
+                exec(&origin_switch_case(&mut r), rec);
+            }
+            0..=4 => {
                 rec.stat(if clean { "stream.rendered-clean" } else { "stream.rendered-any" });
                 for t in &tags {
                     rec.stat(&format!("layout.{t}"));
